@@ -57,7 +57,7 @@ type c15Case struct {
 	Cut      int    `json:"cut"`
 	Variant  string `json:"variant"` // eof | error
 	Limit    int64  `json:"read_limit"`
-	Pattern  string `json:"pattern"` // all | partial | zero
+	Pattern  string `json:"pattern"` // all | partial | zero | readmessage
 	RBuf     int    `json:"read_buf"`
 	Frag     int    `json:"fragment"`
 	SeedInfo string `json:"seed"`
@@ -128,6 +128,75 @@ func runC15(stream []byte, cs c15Case, rng *rand.Rand) (key, msg string, msgsSee
 	}
 
 	rest := data
+	if cs.Pattern == "readmessage" {
+		// the one-call API: Conn.ReadMessage (NextReader + read everything)
+		for i := 0; ; i++ {
+			if i > len(data)+2 {
+				return "wt-reader-runaway", "ReadMessage produced more messages than the stream has bytes", i
+			}
+			hok, hbin, hn, hlen := wtHeader(rest)
+			typ, p, err := conn.ReadMessage()
+			switch {
+			case !hok:
+				if err == nil {
+					return "wt-reader-message-from-incomplete-header", fmt.Sprintf("ReadMessage delivered message %d although only %d header bytes remain", i, len(rest)), i
+				}
+				if !nextErrOK(err) {
+					return "wt-reader-wrong-end-error", fmt.Sprintf("stream ended (%s) in header of frame %d: ReadMessage error %q", cs.Variant, i, err), i
+				}
+				k, m := terminal("ReadMessage", err)
+				return k, m, i
+			case int64(hn) < 0:
+				if err == nil {
+					return "wt-reader-accepts-negative-length", fmt.Sprintf("frame %d declares length %d (>= 2^63) and ReadMessage delivered it", i, hn), i
+				}
+				k, m := terminal("ReadMessage", err)
+				return k, m, i
+			case cs.Limit > 0 && int64(hn) > cs.Limit:
+				if err != webtrans.ErrReadLimit {
+					return "wt-reader-limit-wrong-error", fmt.Sprintf("ReadMessage: frame %d declares %d bytes, limit %d: error %v", i, hn, cs.Limit, err), i
+				}
+				if codes := rec.get(); len(codes) != 1 || codes[0] != webtrans.CloseMessageTooBig {
+					return "wt-reader-limit-no-session-close", fmt.Sprintf("limit violation: session close calls = %v (want one with code 1009)", codes), i
+				}
+				k, m := terminal("ReadMessage", err)
+				return k, m, i
+			}
+			avail := rest[hlen:]
+			if uint64(len(p)) > hn {
+				return "wt-reader-more-than-declared", fmt.Sprintf("frame %d declared %d bytes, ReadMessage returned %d", i, hn, len(p)), i
+			}
+			if len(p) > len(avail) {
+				return "wt-reader-more-than-supplied", fmt.Sprintf("frame %d: stream supplied %d payload bytes, ReadMessage returned %d", i, len(avail), len(p)), i
+			}
+			if !bytes.Equal(p, avail[:len(p)]) {
+				return "wt-reader-payload-mismatch", fmt.Sprintf("frame %d: ReadMessage bytes differ from the stream", i), i
+			}
+			if uint64(len(avail)) >= hn {
+				if err != nil {
+					return "wt-reader-error-in-complete-frame", fmt.Sprintf("frame %d is complete (%d bytes) but ReadMessage failed with %q", i, hn, err), i
+				}
+				if uint64(len(p)) != hn || (typ == webtrans.BinaryMessage) != hbin {
+					return "wt-reader-short-message", fmt.Sprintf("frame %d: ReadMessage returned %d of %d bytes, type %d (binary bit %v)", i, len(p), hn, typ, hbin), i
+				}
+				msgsSeen++
+				rest = avail[hn:]
+				continue
+			}
+			if err == nil {
+				return "wt-reader-truncated-frame-as-complete", fmt.Sprintf("frame %d declares %d bytes, stream has %d, ReadMessage reported a complete message of %d bytes", i, hn, len(avail), len(p)), i
+			}
+			if !endErrOK(err) {
+				return "wt-reader-wrong-end-error", fmt.Sprintf("stream ended (%s) inside frame %d: ReadMessage error %q", cs.Variant, i, err), i
+			}
+			_, _, e := conn.NextReader()
+			if e == nil || e.Error() != err.Error() {
+				return "wt-reader-error-not-sticky", fmt.Sprintf("ReadMessage failed with %q, following NextReader returned %v", err, e), i
+			}
+			k, m := terminal("NextReader", e)
+			return k, m, i
+		}
+	}
 	var prevReader io.Reader
 	for i := 0; ; i++ {
 		if i > len(data)+2 {
@@ -331,12 +400,12 @@ func genC15Stream(rng *rand.Rand) (stream []byte, kind string) {
 func TestC15(t *testing.T) {
 	r := rep.New(t, "C15")
 	defer r.Flush()
-	r.Rule("corpus of byte streams (valid frame sequences with minimal/16/64-bit forms, single-bit mutations, random bytes, 64-bit lengths up to 2^64-1); each stream is cut at EVERY offset and ended by EOF and by an injected error, x read limits {0,1,125,126,200,65535} x consumption {all, partial then NextReader, zero-length reads}, and after every NextReader the previous message's (stale) reader is read again; every return value of the real reader is checked against a reference parse; distinct = (corpus kind, cut class, variant, limit, pattern, outcome class)")
+	r.Rule("corpus of byte streams (valid frame sequences with minimal/16/64-bit forms, single-bit mutations, random bytes, 64-bit lengths up to 2^64-1); each stream is cut at EVERY offset and ended by EOF and by an injected error, x read limits {0,1,125,126,200,65535} x consumption {all, partial then NextReader, zero-length reads, the one-call ReadMessage}, and after every NextReader the previous message's (stale) reader is read again; every return value of the real reader is checked against a reference parse; distinct = (corpus kind, cut class, variant, limit, pattern, outcome class)")
 	r.Assume("the documented guard (panic after 1000 reads of a failed connection) is never approached: at most 5 reads follow a failure")
 	nStreams := r.N(600, 40000)
 	rng := r.Rand(15)
 	limits := []int64{0, 1, 125, 126, 200, 65535}
-	patterns := []string{"all", "partial", "zero"}
+	patterns := []string{"all", "partial", "zero", "readmessage"}
 	for s := 0; s < nStreams; s++ {
 		stream, kind := genC15Stream(rng)
 		r.ObsSet("streams", string(stream))
